@@ -146,3 +146,11 @@ add("C21", "exploration", ["dbh"], dbh("c21", ["--n", "640"], ["--n", "12000", "
     "valid encodings and length-prefix extremes in worker processes: no panic, no abort, no single allocation request above 64 MiB (inputs < 1 KiB; the "
     "largest legitimate request is reported).",
     "Dev profile (overflow checks and debug assertions on), which is what cargo build/test use; release is not run here.", "DESIGN.md §6 C21")
+
+add("C07", "exploration", ["dbh"], dbh("c07", ["--n", "96"], ["--n", "3000", "--mutants", "250"]),
+    "panic monitor + allocation-cap allocator over structure-aware mutants of valid file pairs, in worker processes",
+    "Valid data-file / write-ahead-log pairs (closed and mid-transaction) mutated structure-aware and opened with Db, DbFile and DbMemory, then read "
+    "completely: no panic, no abort, no allocation request above 64 MiB for files of a few KiB. Known, unrepaired crash sites are listed in "
+    "known_findings.json by call site; any other site is a violation.",
+    "Dev profile. A mutant that makes a read loop forever is reported as inconclusive (watchdog), not as a C07 violation (termination is C19).",
+    "DESIGN.md §6 C07")
